@@ -13,7 +13,7 @@ for v in idx['variants']:
     e = v.get('expect', {})
     rules = v.get('rules', {})
     own_res = e.get(own)
-    rnd = 'r4' if '-r4' in name else 'r3' if '-r3' in name else 'r2' if '-r2' in name else 'r1'
+    rnd = 'r6' if '-r6' in name else 'r5' if '-r5' in name else 'r4' if '-r4' in name else 'r3' if '-r3' in name else 'r2' if '-r2' in name else 'r1'
     st = stats.setdefault(rnd, [0, 0, 0])
     st[0] += 1
     if own_res == 'caught':
@@ -24,7 +24,7 @@ for v in idx['variants']:
     what = re.sub(r'\s+', ' ', v.get('what', ''))[:110].replace('|', '/')
     rows.append('| %s | %s | %s | %s | %s |' % (name, own, 'own: ' + ', '.join(r.split('.', 1)[-1] for r in rules.get(own, [])) if own_res == 'caught' else ('**miss**' if own_res == 'miss' else str(own_res)),
                                                 ', '.join(others) or '–', what))
-out = ['Per round: ' + '; '.join('%s: %d seeds, own check reports %d, some check reports %d' % (k, v[0], v[1], v[2]) for k, v in sorted(stats.items())) + '.', '',
+out = ['Per round, with the final rule set (a regression statement - the measurements at receipt are in section 12): ' + '; '.join('%s: %d seeds, own check reports %d, some check reports %d' % (k, v[0], v[1], v[2]) for k, v in sorted(stats.items())) + '.', '',
        '| change | property | reported by its own check (rules) | also reported by | what was changed |', '|---|---|---|---|---|'] + rows
 p = os.path.join(VERIF, 'DESIGN.md')
 s = open(p).read()
